@@ -14,7 +14,7 @@ Definition unit_dim (u : string) : dim :=
   if String.eqb u "1/Ang^3" then Length (-3) else
   if String.eqb u "1e-6/Ang^2" then Sld else
   if String.eqb u "degrees" || String.eqb u "degree" then Angle else
-  if String.eqb u "" || String.eqb u "None" then Dimensionless else Other.
+  if String.eqb u "" || String.eqb u "None" || String.eqb u "none" then Dimensionless else Other.
 
 Definition recognised (d : dim) : bool := match d with Other => false | _ => true end.
 
